@@ -711,6 +711,32 @@ def malformed_frames(rng: Any, n: int) -> list[tuple[str, bytes]]:
 
 
 # --------------------------------------------------------------------------
+# harness robustness: a failure of the harness itself for one case is counted and skipped, it never kills a shard
+
+
+def guarded(ctx: Any, what: str, fn: Any, *args: Any, **kw: Any) -> Any:
+    """fn(*args, **kw); on a harness exception: count, keep the first tracebacks, return None."""
+    try:
+        return fn(*args, **kw)
+    except Exception as err:  # noqa: BLE001 - BaseExceptions (budget aborts, KeyboardInterrupt) pass through
+        import traceback
+
+        ctx.count("harness_case_skipped")
+        errs = ctx.extra.setdefault("harness_errors", [])
+        if len(errs) < 5:
+            errs.append(f"{what}: {type(err).__name__}: {err} @ " + " <- ".join(
+                f"{f.name}:{f.lineno}" for f in reversed(traceback.extract_tb(err.__traceback__)[-4:])))
+        return None
+
+
+def harness_verdict(ctx: Any) -> None:
+    """Too many skipped cases mean the workload was not what the evidence says: inconclusive."""
+    n = ctx.counters.get("harness_case_skipped", 0)
+    if n > max(20, ctx.evaluations // 1000):
+        ctx.inconclusive(f"{n} cases skipped because of harness errors: {ctx.extra.get('harness_errors', [])[:2]}")
+
+
+# --------------------------------------------------------------------------
 # budgeted execution: logical steps (LINE events), heap peak, wall backstop
 
 
